@@ -33,11 +33,13 @@ theorem translate_eq_resolve {d : Dim} {r : Ref} {k : Nat} (h : resolve d r = .i
 theorem unmatched_none {d : Dim} {r : Ref} (h : resolve d r = .nothing) : translate d r = none :=
   C19L.unmatched_none h
 
-/-- alias, sub-variable id, int element id and string element id of an item all resolve to that
-    item (its alias), provided no spelling is shared (`NoCollision`). -/
+/-- alias, int element id and string element id of an item -- and its sub-variable id, on a
+    dimension whose elements all carry one (otherwise the library has no sub-variable ids at all:
+    `_subvar_ids` is all-or-nothing) -- all resolve to that item (its alias), provided no spelling
+    is shared (`NoCollision`). -/
 theorem spellings_agree {d : Dim} (h : NoCollision d) {k : Nat} (hk : k < d.size) :
     translate d (.str (item d k).alias) = some (item d k).alias ∧
-    translate d (.str (item d k).subvarId) = some (item d k).alias ∧
+    (d.noSubvarIds = false → translate d (.str (item d k).subvarId) = some (item d k).alias) ∧
     translate d (.int (item d k).eid) = some (item d k).alias ∧
     translate d (.str (decStr (item d k).eid)) = some (item d k).alias := C19L.spellings_agree h hk
 
@@ -75,7 +77,7 @@ theorem slots_factor (d : Dim) (x x' : DimXf)
 
 /-- under `NoCollision`, any two spellings of the same item "mean the same" -/
 theorem sameItem_of_spellings {d : Dim} (h : NoCollision d) {k : Nat} (hk : k < d.size) {r r' : Ref}
-    (hr : r ∈ spellings (item d k)) (hr' : r' ∈ spellings (item d k)) : SameItem d r r' :=
+    (hr : r ∈ spellings d (item d k)) (hr' : r' ∈ spellings d (item d k)) : SameItem d r r' :=
   C19L.sameItem_of_spellings h hk hr hr'
 
 /-- C19: in hide / rename, explicit-order, fixed-list and sort-by-opposing-element transforms all
@@ -156,6 +158,12 @@ example : resolve exDim (.str "0021") = .item 1 ∧ resolve exDim (.int 0) = .it
           resolve exDim (.str "zz") = .nothing ∧ resolve exDim .null = .nothing ∧
           resolve exDim (.str " 1") = .unspecified := by decide
 example : translate exDim (.str " 1") = some "m_b" := by decide      -- Python's `int(" 1") == 1`
+/-- one element without `value.id`: no sub-variable id resolves any more, the other spellings still do,
+    and the `None` the shim writes for the stale id stays `None` on every later pass -/
+example : let d := { exDim with noSubvarIds := true }
+          NoCollision d ∧ translate d (.str "0021") = none ∧ resolve d (.str "0021") = .unspecified ∧
+          translate d (.int 1) = some "m_b" ∧ shimIds d (shimIds d [.str "0021", .int 4]) = [.null, .str "m_c"] := by
+  decide
 example : SameItem exDim (.str "0024") (.int 4) := Or.inl ⟨2, by decide, by decide⟩
 example : exDim.aliases.Nodup := by decide
 example : DtNoCollision { items := [ { id := 0, value := some "2001-01-01" }, { id := -1, value := none } ] } := by decide
